@@ -60,7 +60,7 @@ TABLE: List[Entry] = [
     ("R-KEEPBEST", None, None, {"C03", "C11"}),
     # joining a worker that may still be writing into a queue nobody reads deadlocks healthy runs too ("the call returns once every worker
     # has finished", C11); the other liveness clauses only matter when a worker dies (C18)
-    ("R-LIVENESS", None, "unbounded-join", {"C11", "C18"}),
+    ("R-LIVENESS", None, "unbounded-join", {"C03", "C11", "C18"}),  # C03: the distributed optimisation terminates
     ("R-LIVENESS", None, None, {"C18"}),
     ("R-STATS-MAP", "BacktrackSolver", None, {"C17"}),
     ("R-STATS-MAP", "MultiprocessingSolver", None, {"C11", "C17"}),
@@ -128,6 +128,10 @@ TABLE: List[Entry] = [
     ("R-SHAVE", None, "no-advance-after-failed-probe", {"C02", "C04", "C10"}),
     # what the shaving algorithm hands back must be a propagated state with the right status: validity (C01) and fixpoint (C08) under the
     # shaving configuration; the un-probing is a backtrack to the saved alternative, whose moved bound must be announced (C09)
+    # the probe's propagation runs on a pushed level that is discarded: a constraint entailed only under the probe's hypothesis must not
+    # stay disabled at the enclosing level (C07)
+    ("R-SHAVE", None, "probe-value", {"C02", "C07", "C10"}),
+    ("R-SHAVE", None, "own-store", {"C02", "C07", "C10"}),
     ("R-SHAVE", None, "undo-replay", {"C01", "C02", "C08", "C09", "C10"}),
     ("R-SHAVE", None, "re-propagation", {"C01", "C02", "C08", "C10"}),
     ("R-SHAVE", None, "shave-then-exit", {"C01", "C02", "C08", "C10"}),
